@@ -63,11 +63,15 @@ def runShow (s : St) : List Op → List String
   | [] => []
   | op :: rest => let r := showStep s op; r.2 :: runShow r.1 rest
 
+def handleHist (s0 : St) (ops : String) : String :=
+  match (if ops == "-" then some [] else (ops.splitOn ";").mapM parseOp) with
+  | some l => "ok " ++ " ".intercalate (runShow s0 l)
+  | none => "bad-op"
+
+/-- `hist <ops>`: fresh VGA session; `histt <ops>`: fresh Tandy/PCjr session -/
 def handle : List String → String
-  | ["hist", ops] =>
-    match (if ops == "-" then some [] else (ops.splitOn ";").mapM parseOp) with
-    | some l => "ok " ++ " ".intercalate (runShow init l)
-    | none => "bad-op"
+  | ["hist", ops] => handleHist init ops
+  | ["histt", ops] => handleHist initTandy ops
   | _ => "bad-op"
 
 end PcbV.Drv.C36
